@@ -49,13 +49,15 @@ func hasBadLit(n term.Node) bool {
 }
 
 func (c02) Generate(r *rand.Rand, t string) []*Case {
-	var out []*Case
+	out := c02NullishStream(r, t)
 	n := tier(t, 5000, 300000)
 	for i := 0; i < n; i++ {
 		paths := somePaths(r, 5)
 		g := &Gen{R: r, Paths: paths, MaxDepth: 2 + r.Intn(3), NilRate: 8}
 		if r.Intn(3) == 0 {
 			g.NilRate = 0
+		} else if r.Intn(2) == 0 {
+			g.NilRate, g.MoreNullish = 5, true // null Dicts, empty Lists ... also beside other items of Values
 		}
 		h, _ := FileSetup(r, 0, SetupOpts{Paths: paths})
 		nst := 1 + r.Intn(4)
@@ -103,6 +105,12 @@ func (c02) Generate(r *rand.Rand, t string) []*Case {
 		h = append(h, hist.Op{Kind: "imports", F: 0})
 		tags := []string{fmt.Sprintf("paths=%d", len(paths)), fmt.Sprintf("noformat=%v", nf)}
 		tags = append(tags, SetupTags(h)...) // header= pkgcomment= header-twice hint-repeated
+		if g.MoreNullish {
+			tags = append(tags, "more-nullish")
+			if g.NullDicts > 0 {
+				tags = append(tags, "null-dict-item")
+			}
+		}
 		if g.RawNumbers > 0 {
 			tags = append(tags, "noncanonical-number")
 			if !damaged && !nf {
